@@ -33,6 +33,7 @@ inductive FE where
   | cond (t : FE) (a : FE) (b : FE)                 -- (t ? a : b)
   | protoOf (e : FE)                                -- Object.getPrototypeOf(e)
   | regex                                           -- the regular expression literal /x/
+  | fcc (n : Nat)                                   -- String.fromCharCode(n)
   | fnCtor (f : FE)                                 -- Function("<body of f>") for a parameterless, nameless f
   | wproto (k : String)                             -- String.prototype / Number.prototype / Boolean.prototype / Object.prototype
   | defAcc (o : FE) (p : String) (t : String)       -- Object.defineProperty(o, "p", {get: <logs G t, returns "v"+t>,
@@ -83,8 +84,14 @@ inductive FS where
   | label (l : String) (s : FS)                     -- l: s
   | brk (l : Option String)                         -- break [l];
   | cont (l : Option String)                        -- continue [l];
+  | switchS (d : FE) (cs : FCases)                  -- switch (d) { case e: … default: … }
 inductive FSs where
   | nil | cons (s : FS) (r : FSs)
+/-- the clauses of a switch statement in source order; at most one `dflt` -/
+inductive FCases where
+  | nil
+  | case (e : FE) (b : FSs) (r : FCases)
+  | dflt (b : FSs) (r : FCases)
 end
 
 end OttoVerif.C01.Fn
